@@ -141,6 +141,7 @@ class Spec:
         st.hdr_sent = set()
         st.dead = False
         st.nopen = 0
+        st.badprio = False
         st.dec = hpack.Decoder()           # the peer's decoder, follows the library's encoder
         st.dec.max_header_list_size = 2 ** 31
         out = [("new", st)]
@@ -154,7 +155,7 @@ class Spec:
         return out
 
     def fingerprint(self, st):
-        return fingerprint(st.conn, st.initiated, st.F, st.peer_pref, tuple(st.streams), tuple(sorted(st.hdr_sent)), st.dead, st.nopen, st.dec)
+        return fingerprint(st.conn, st.initiated, st.F, st.peer_pref, tuple(st.streams), tuple(sorted(st.hdr_sent)), st.dead, st.nopen, st.dec, st.badprio)
 
     def actions(self, st):
         if st.dead:
@@ -171,8 +172,14 @@ class Spec:
                 "partial+clear"]
         if st.F != FRAME_LIMITS[0]:
             acts.append("rx:mfs:%d" % FRAME_LIMITS[0])      # the peer lowers its limit again
+        # a SETTINGS frame that carries MAX_FRAME_SIZE next to another setting (HEADER_TABLE_SIZE at its current value)
+        acts.append("rx:mfs+hts:%d" % (FRAME_LIMITS[0] if st.F != FRAME_LIMITS[0] else FRAME_LIMITS[1]))
         if st.nopen < 2:
             acts.append("open")
+            if self.client and not st.badprio:
+                # a request refused for its priority fields (weight 0): nothing may be emitted - and nothing of it may
+                # stay behind in the compression context, which the next request (same extra field) would reveal
+                acts.append("open:badprio")
         if self.client:
             acts += ["prio:1", "prio:9"]
         else:
@@ -247,6 +254,12 @@ class Spec:
                 exp_ack = False
                 if o.kind == "ok" and o.frames:
                     bad("ack-answered", "a SETTINGS ACK was answered with %s" % [f.brief() for f in o.frames])
+            elif parts[1] == "mfs+hts":
+                v = int(parts[2])
+                o = H.recv(c, pre + wire.settings([(wire.S_HEADER_TABLE_SIZE, 4096), (wire.S_MAX_FRAME_SIZE, v)]).serialize())
+                if o.kind == "ok":
+                    st.F = v
+                exp_ack = True
             elif parts[1] == "mfs":
                 v = int(parts[2])
                 o = H.recv(c, pre + wire.settings([(wire.S_MAX_FRAME_SIZE, v)]).serialize())
@@ -273,12 +286,20 @@ class Spec:
             if exp_ack:
                 expect_single(o, bad, lab, wire.SETTINGS, 0, ack=True, settings=[])
             return Step("rx-" + parts[1], viols)
+        if lab == "open:badprio":
+            st.badprio = True
+            sid = c.get_next_available_stream_id()
+            o = H.call(c, "send_headers", sid, H.REQ_POST + [(b"x-late", b"1")], priority_weight=0)
+            if o.kind == "ok" or o.raw:
+                bad("invalid-priority-not-refused-cleanly", "send_headers with priority_weight=0 -> %s" % o.brief())
+                st.dead = True
+            return Step("badprio-refused", viols)
         if lab == "open":
             st.nopen += 1
             if self.client:
                 sid = 2 * st.nopen - 1 + (2 if 1 in st.hdr_sent and 1 not in st.streams and st.nopen == 1 else 0)
                 sid = c.get_next_available_stream_id()
-                hdrs = H.REQ_POST + [(b"X-Mixed", b" v ")]
+                hdrs = H.REQ_POST + [(b"X-Mixed", b" v ")] + ([(b"x-late", b"1")] if st.badprio else [])
                 o = H.call(c, "send_headers", sid, hdrs, priority_weight=200, priority_depends_on=0, priority_exclusive=False)
                 if o.kind == "ok" and check_frames(o, st.F, bad, lab):
                     expect_headers_like(o, wire.HEADERS, sid, hdrs, False, (0, 200, False), st.F, bad, lab, dec=st.dec)
